@@ -66,8 +66,17 @@ def millerRabin (a n : Nat) : W PrimeResult := do
       if x = 1 then pure .probablyPrime
       else mrLoop params.powerOfTwo x n
 
-/-- The `while (true)` loop of `is_perfect_square` (probable_primes.hh:96-105); `prev` strictly
-decreases on every iteration that continues. -/
+/-- `(n / curr == curr) && (n % curr == 0u)` (probable_primes.hh, after fix F19: the former
+`curr * curr == n` wrapped for `curr ≥ 2^32`); `&&` short-circuits. -/
+def squareTest (n curr : Nat) : W Bool := do
+  let q ← div n curr
+  if q = curr then do
+    let r ← mod n curr
+    pure (decide (r = 0))
+  else pure false
+
+/-- The `while (true)` loop of `is_perfect_square`; `prev` strictly decreases on every iteration
+that continues. -/
 def perfectSquareLoop : Nat → Nat → Nat → W Bool
   | fuel, prev, n =>
     match fuel with
@@ -76,8 +85,8 @@ def perfectSquareLoop : Nat → Nat → Nat → W Bool
       let q ← div n prev
       let s ← add prev q
       let curr ← div s 2
-      let sq ← mul curr curr                -- `curr * curr` wraps for curr ≥ 2^32
-      if sq = n then pure true
+      let isSq ← squareTest n curr
+      if isSq then pure true
       else if curr ≥ prev then pure false
       else perfectSquareLoop fuel curr n
 
